@@ -158,14 +158,13 @@ Definition mesh_peers (n : nat) (self dead : bool) (i : Z) : list Z :=
 
 Definition gcr_run (n : nat) (self dead : bool) := run gc Z gc_init gc_write gc_merge (mesh_peers n self dead).
 
-(* observation of one node: (Read of value, Read of the stable value, hasOldValue, needBroadcastCount) *)
-Definition obs := (Z * Z * bool * nat)%type.
-
-Definition node_obs (nd : node gc) : obs := (gc_read (n_value nd), gc_read (stable nd), n_hasold nd, n_need nd).
+(* observation of one node: (Read of value, Read of the stable value, hasOldValue, needBroadcastCount);
+   a read is a list: [number] for GCounter, the sorted elements for the sets *)
+Definition obs := (list Z * list Z * bool * nat)%type.
 
 Definition obs_eqb (a b : obs) : bool :=
   let '(v1, s1, h1, k1) := a in let '(v2, s2, h2, k2) := b in
-  (v1 =? v2) && (s1 =? s2) && Bool.eqb h1 h2 && Nat.eqb k1 k2.
+  zlist_eqb v1 v2 && zlist_eqb s1 s2 && Bool.eqb h1 h2 && Nat.eqb k1 k2.
 
 Fixpoint obs_list_eqb (a b : list obs) : bool :=
   match a, b with
@@ -174,18 +173,28 @@ Fixpoint obs_list_eqb (a b : list obs) : bool :=
   | _, _ => false
   end.
 
-(* the schedule with, after each event, either nothing to compare (None: the harness did not stop
-   there) or the observations of nodes 0 .. n-1 *)
-Fixpoint gcr_check_from (n : nat) (self dead : bool) (st : state gc) (evs : list (gcr_event * option (list obs))) : bool :=
-  match evs with
-  | [] => true
-  | (e, o) :: rest =>
-      let st' := step gc Z gc_write gc_merge (mesh_peers n self dead) st e in
-      (match o with
-       | None => true
-       | Some l => obs_list_eqb (map (fun i => node_obs (st' (Z.of_nat i))) (seq 0 n)) l
-       end) && gcr_check_from n self dead st' rest
-  end.
+Section ResCheck.
+  Variables (T A : Type) (init : T) (write : Z -> A -> T -> T) (merge : T -> T -> T) (rd : T -> list Z).
 
-Definition gcr_check (n : nat) (self dead : bool) (evs : list (gcr_event * option (list obs))) : bool :=
-  gcr_check_from n self dead (state_init gc gc_init) evs.
+  Definition node_obs (nd : node T) : obs := (rd (n_value nd), rd (stable nd), n_hasold nd, n_need nd).
+
+  (* the schedule with, after each event, either nothing to compare (None: the harness did not stop
+     there) or the observations of nodes 0 .. n-1 *)
+  Fixpoint res_check_from (n : nat) (self dead : bool) (st : state T) (evs : list (event T A * option (list obs))) : bool :=
+    match evs with
+    | [] => true
+    | (e, o) :: rest =>
+        let st' := step T A write merge (mesh_peers n self dead) st e in
+        (match o with
+         | None => true
+         | Some l => obs_list_eqb (map (fun i => node_obs (st' (Z.of_nat i))) (seq 0 n)) l
+         end) && res_check_from n self dead st' rest
+    end.
+
+  Definition res_check (n : nat) (self dead : bool) (evs : list (event T A * option (list obs))) : bool :=
+    res_check_from n self dead (state_init T init) evs.
+End ResCheck.
+
+Definition gcr_check := res_check gc Z gc_init gc_write gc_merge (fun c => [gc_read c]).
+Definition awr_check := res_check aw (Z * Z) aw_init aw_write aw_merge (fun s => zsort (aw_read s)).
+Definition lwwr_check := res_check lww (Z * Z * Z) lww_init lww_write lww_merge (fun s => zsort (lww_read s)).
